@@ -12,6 +12,16 @@ def S(scn, bound, threads=2, variant='hooks', **kw):
     d.update(kw)
     return d
 
+def MIX(lens, bound, first=None, ops=None):
+    """mixed entry kinds on one Mutex: every tuple of programs over L (lock..unlock), T (one trylock), W (with block); thread i at most lens[i] sections"""
+    a = ['scn=lockmix', 'bound=%d' % bound, 'lens=' + ','.join(str(x) for x in lens)] + (['first=' + first] if first else []) + (['ops=' + ops] if ops else [])
+    return dict(name='lockmix-%s%s-b%d' % ('+'.join(str(x) for x in lens), ('-first' + first) if first else '', bound), harness='h_thread.c', variant='hooks', args=a, cflags=WRAP)
+
+def HIST(maxlen, bound, managed=0, minlen=4):
+    """thread-local storage across Thread object lifetimes: every create/call/join/delete history over two Thread slots, minlen..maxlen steps"""
+    a = ['scn=tlshist', 'bound=%d' % bound, 'len=%d' % maxlen, 'minlen=%d' % minlen] + (['managed=1'] if managed else [])
+    return dict(name='tlshist-%s-len%d-b%d' % ('managed' if managed else 'raw', maxlen, bound), harness='h_thread.c', variant='hooks', args=a, cflags=WRAP)
+
 CHECK = {
   'id': 'C13',
   'level': 'model_checking',
@@ -19,10 +29,23 @@ CHECK = {
            '(create, join, mutex lock/trylock/unlock), thread start/exit, the CELLO_VERIF hook sites enabled per scenario (collector set/rem/mark/sweep/finalise, '
            'exception try/throw/catch/try_end, Table set/rehash, thread run begin/end, lazy key/main-thread creation) and explicit points in the critical sections; '
            'every schedule with at most `bound` preemptions is executed in a fresh process (iterative context bounding), failing schedules are replayed twice. '
+           'lockmix-*: every tuple of per-thread programs over {L lock/section/unlock, T one trylock then section/unlock if it succeeded, W with-block around the section} on one Mutex, '
+           'each explored under the scheduler; judged: no thread inside a section while another is (whatever kinds of entry the two used), also across the scheduling point in the middle of every section '
+           '(a with block holds the Mutex for its whole body), every L/W section runs once and no update is lost, trylock is refused only while somebody is inside, '
+           'and once every section has ended the Mutex is free (a block exit released its own hold and nothing else). '
+           'tlshist-*: every history of create / call / join / delete steps over two Thread slots (no thread left running, at least two calls, slot 1 only after slot 0); every run looks at '
+           'its own storage (current(Thread) as key/value store) before touching it - a key may be there only if an earlier run of the same Thread object left it, with that value; a fresh Thread object '
+           'holds nothing, whatever was created, run, joined or deleted before - then sets keys to values of its own and reads them back before and after a scheduling point; the main thread '
+           'keeps a value under one of the same key names and never sees the keys only workers set. '
            'states = distinct observed outcomes, transitions = choice points executed, traces = schedules; distinct_nontrivial = schedules with at least one preemption'),
   'bounds': {
-    'quick': '2 threads; preemption bound 2 for the mutex / join / thread-local / exception scenarios, bound 1 for the allocation-heavy and container scenarios and for parent-collects-while-child-runs',
-    'thorough': '2 threads bound 3 (mutex, join), bound 2 everywhere else; 3 threads bound 2 (mutex) / bound 1 (workloads)',
+    'quick': '2 threads; preemption bound 2 for the mutex / join / thread-local / exception scenarios, bound 1 for the allocation-heavy and container scenarios and for parent-collects-while-child-runs; '
+             'lockmix: 2 threads, thread 1 one or two sections, thread 2 one section, all 36 program pairs over {L,T,W} (three instances, split by the first section of thread 1), bound 2; '
+             'tlshist: all 63 histories of 4..7 steps over two Thread slots, bound 1 (Thread objects made with new_raw/del_raw) and bound 1 with collector-managed Thread objects (new/del)',
+    'thorough': '2 threads bound 3 (mutex, join, abandoned mutex), bound 2 everywhere else (formatting bound 2 under a deadline of 10 min: the evidence says whether it completed; bound 1 always completes); '
+                '3 threads bound 2 (mutex) / bound 1 (workloads); abandoned mutex with 3 trying threads: 3 attempts each bound 0 (every order of the yields), 2 attempts bound 1, 1 attempt bound 2; '
+                'lockmix: 2 threads with up to two sections each (144 program pairs) bound 2, two+one sections bound 3, three+one sections bound 2, 3 threads with 2+1+1 sections (108 program triples) bound 2; '
+                'tlshist: histories of 4..9 steps bound 1 (595 histories), 4..7 steps bound 2, collector-managed Thread objects 4..8 steps bound 1',
   },
   'assumptions': [
     'sequential consistency between scheduling points; between two points a thread runs deterministically',
@@ -37,16 +60,28 @@ CHECK = {
       S('parent+alloc', 2), S('parent+tls', 2), S('parent+tls', 2, args=['scn=parent+tls', 'bound=2', 'threads=2', 'managed=1'], name='parent+tls-managed-b2'),
       S('parent+args', 2), S('parent+args', 2, args=['scn=parent+args', 'bound=2', 'threads=2', 'managed=1', 'seed=1'], name='parent+args-managed-seeded-b2'), S('args', 1),
       S('abandon', 2), S('rerun', 1), S('parent+args', 2, args=['scn=parent+args', 'bound=2', 'threads=2', 'heapargs=1'], name='parent+args-heapargs-b2'),
+      MIX((2, 1), 2, 'L'), MIX((2, 1), 2, 'T'), MIX((2, 1), 2, 'W'), HIST(7, 1), HIST(7, 1, managed=1),
+      F('lockmix', 2, 5, ('prog=LW+T',)), F('lockmix', 2, 5, ('prog=TL+WT',)), F('tlshist', 2, 5, ('prog=n0c0n1c1j0d0n0c0j1j0',)),
       F('alloc'), F('exc'), F('tls'), F('cont'), F('fmt'), F('mutex-lock'), F('parent+alloc'), F('parent+tls'), F('parent+tls', 2, 8, ('managed=1',)), F('parent+args'),
     ],
     'thorough': [
       S('mutex-lock', 3), S('mutex-trylock', 2), S('mutex-with', 3), S('join', 3),
       S('mutex-lock', 2, threads=3), S('mutex-with', 2, threads=3),
       S('exc', 2), S('tls', 2), S('alloc', 2), S('cont', 2),
-      S('exc', 1, threads=3), S('alloc', 1, threads=3), S('fmt', 2), S('fmt', 1, threads=3),
+      S('exc', 1, threads=3), S('alloc', 1, threads=3),
+      # fmt bound 2: 159 971 schedules, 5-8 min on a quiet machine; deadline=600 ends it cleanly (exhaustive:false, position noted) on an overloaded one; bound 1 is complete in quick and in fmt-t3-b1
+      S('fmt', 2, args=['scn=fmt', 'bound=2', 'threads=2', 'deadline=600']), S('fmt', 1), S('fmt', 1, threads=3),
       S('parent+alloc', 2), S('parent+tls', 2), S('parent+exc', 2), S('parent+cont', 2),
-      S('abandon', 3), S('abandon', 2, threads=3), S('rerun', 2), S('parent+args', 3, args=['scn=parent+args', 'bound=3', 'threads=2', 'heapargs=1'], name='parent+args-heapargs-b3'),
+      S('abandon', 3),
+      # 3 trying threads x 3 attempts: bound 1 alone is 190 011 schedules (16 min), bound 2 did not end within an hour; the 3-thread part is covered by three runs that do end:
+      # every yield order without preemption with 3 attempts, bound 1 with 2 attempts, bound 2 with 1 attempt per thread
+      S('abandon', 0, threads=3), S('abandon', 1, threads=3, args=['scn=abandon', 'bound=1', 'threads=3', 'tries=2'], name='abandon-t3-b1-tries2'),
+      S('abandon', 2, threads=3, args=['scn=abandon', 'bound=2', 'threads=3', 'tries=1'], name='abandon-t3-b2-tries1'), S('rerun', 2), S('parent+args', 3, args=['scn=parent+args', 'bound=3', 'threads=2', 'heapargs=1'], name='parent+args-heapargs-b3'),
       S('parent+args', 3), S('parent+args', 3, args=['scn=parent+args', 'bound=3', 'threads=2', 'managed=1', 'seed=1'], name='parent+args-managed-seeded-b3'), S('args', 2), S('args', 1, threads=3), F('parent+args', 2, 10), F('args', 3, 10),
+      MIX((2, 2), 2, 'L'), MIX((2, 2), 2, 'T'), MIX((2, 2), 2, 'W'), MIX((2, 1), 3, 'L'), MIX((2, 1), 3, 'T'), MIX((2, 1), 3, 'W'), MIX((3, 1), 2, 'L'), MIX((3, 1), 2, 'T'), MIX((3, 1), 2, 'W'),
+      MIX((2, 1, 1), 2, 'L'), MIX((2, 1, 1), 2, 'T'), MIX((2, 1, 1), 2, 'W'),
+      HIST(9, 1), HIST(7, 2), HIST(8, 1, managed=1),
+      F('lockmix', 3, 10, ('prog=LW+T+W',)), F('lockmix', 3, 10, ('prog=WT+TL+LW',)), F('tlshist', 2, 10, ('prog=n0c0n1c1j0d0n0c0j1j0',)), F('tlshist', 2, 10, ('prog=n0c0j0c0n1c1j0j1d0n0c0j0',)),
       F('alloc', 3, 10), F('fmt', 3, 10), F('exc', 3, 10), F('tls', 3, 10), F('cont', 3, 10), F('mutex-lock', 3, 10), F('mutex-with', 3, 10), F('parent+alloc', 2, 10), F('parent+tls', 2, 10), F('parent+cont', 2, 10),
     ],
   },
